@@ -12,6 +12,10 @@ from .index import AnalysisError
 from . import norm
 
 
+class TinyRaise(Exception):
+    """The evaluated code would raise this (built-in) exception on the cell."""
+
+
 class Buf:
     __slots__ = ("lo", "hi")
 
@@ -56,6 +60,13 @@ class Tiny:
             t = norm.text(e)
             if t in self.env:
                 return self.env[t]
+            if isinstance(e, ast.Attribute):
+                try:
+                    base = self.ev(e.value)
+                except AnalysisError:
+                    base = None
+                if isinstance(base, Sym) and e.attr in base.attrs:
+                    return base.attrs[e.attr]
             raise AnalysisError(f"tiny: reads {t}")
         if isinstance(e, ast.Subscript):
             if norm.text(e) in self.env:
@@ -63,6 +74,11 @@ class Tiny:
             b = self.ev(e.value)
             if isinstance(b, (list, tuple)) and not isinstance(e.slice, ast.Slice):
                 return b[self.ev(e.slice)]
+            if isinstance(b, dict) and not isinstance(e.slice, ast.Slice):
+                k = self.ev(e.slice)
+                if k not in b:
+                    raise TinyRaise("KeyError")
+                return b[k]
             if isinstance(b, Buf) and isinstance(e.slice, ast.Slice) and e.slice.step is None:
                 lo = self.ev(e.slice.lower) if e.slice.lower is not None else None
                 hi = self.ev(e.slice.upper) if e.slice.upper is not None else None
@@ -78,9 +94,12 @@ class Tiny:
         if isinstance(e, ast.Compare) and len(e.ops) >= 1:
             vals = [self.ev(e.left)] + [self.ev(c) for c in e.comparators]
             for op, a, b in zip(e.ops, vals, vals[1:]):
-                a = len(a) if isinstance(a, Buf) else a
-                b = len(b) if isinstance(b, Buf) else b
-                if isinstance(op, (ast.Is, ast.IsNot)):
+                if not isinstance(op, (ast.In, ast.NotIn)):
+                    a = len(a) if isinstance(a, Buf) else a
+                    b = len(b) if isinstance(b, Buf) else b
+                if isinstance(op, (ast.In, ast.NotIn)):
+                    r = (a in b) if isinstance(op, ast.In) else (a not in b)
+                elif isinstance(op, (ast.Is, ast.IsNot)):
                     r = (a is b) if isinstance(op, ast.Is) else (a is not b)
                 else:
                     r = {ast.Eq: a == b, ast.NotEq: a != b, ast.Lt: a < b, ast.LtE: a <= b, ast.Gt: a > b, ast.GtE: a >= b}[type(op)]
@@ -99,6 +118,8 @@ class Tiny:
             return not self.truth(self.ev(e.operand))
         if isinstance(e, ast.UnaryOp) and isinstance(e.op, ast.USub):
             return -self.ev(e.operand)
+        if isinstance(e, ast.JoinedStr):
+            return "<text>"
         if isinstance(e, ast.IfExp):
             return self.ev(e.body) if self.truth(self.ev(e.test)) else self.ev(e.orelse)
         if isinstance(e, ast.Call):
@@ -106,7 +127,7 @@ class Tiny:
             f = norm.text(e.func)
             if f == "len" and len(e.args) == 1:
                 v = self.ev(e.args[0])
-                if isinstance(v, Buf):
+                if isinstance(v, (Buf, list, dict, tuple, str)):
                     return len(v)
             if f in ("min", "max") and e.args:
                 return (min if f == "min" else max)(self.ev(a) for a in e.args)
@@ -121,13 +142,26 @@ class Tiny:
                 if isinstance(v, dict):
                     return list(v)
                 raise AnalysisError(f"tiny: {f}() of {v!r} would raise TypeError")
-            if f == "dict" and not e.args and not e.keywords:
-                return {}
-            if isinstance(e.func, ast.Attribute) and e.func.attr == "append" and len(e.args) == 1:
-                tgt = self.ev(e.func.value)
-                if isinstance(tgt, list):
-                    tgt.append(self.ev(e.args[0]))
-                    return None
+            if f == "dict" and not e.keywords and len(e.args) <= 1:
+                if not e.args:
+                    return {}
+                v = self.ev(e.args[0])
+                if isinstance(v, dict):
+                    return dict(v)
+                raise AnalysisError(f"tiny: dict() of {v!r}")
+            if isinstance(e.func, ast.Attribute) and e.func.attr in ("append", "remove", "extend", "insert", "pop", "get", "setdefault", "clear", "values", "keys", "items",
+                                                                    "index", "count", "copy"):
+                try:
+                    tgt = self.ev(e.func.value)
+                except AnalysisError:
+                    tgt = None
+                if isinstance(tgt, (list, dict)) and hasattr(tgt, e.func.attr):
+                    args = [self.ev(a) for a in e.args]
+                    try:
+                        r = getattr(tgt, e.func.attr)(*args)
+                    except (KeyError, ValueError, IndexError) as ex:
+                        raise TinyRaise(type(ex).__name__)
+                    return list(r) if e.func.attr in ("values", "keys", "items") else r
             if t in self.calls:
                 return self.calls[t]
             if f in self.calls:
@@ -136,9 +170,29 @@ class Tiny:
                 r = self.calls[f]
                 return r(*args) if callable(r) else r
             if self.default_call is not None:
-                args = [self.ev(a) for a in e.args]
-                self.trace.append((f, args))
-                return self.default_call(f, args)
+                args = []
+                for a in e.args:
+                    if isinstance(a, ast.Starred):
+                        v = self.ev(a.value)
+                        if not isinstance(v, (list, tuple)):
+                            raise TinyRaise("TypeError")
+                        args.extend(v)
+                    else:
+                        args.append(self.ev(a))
+                kwargs = {}
+                for k in e.keywords:
+                    if k.arg is None:
+                        v = self.ev(k.value)
+                        if not isinstance(v, dict):
+                            raise TinyRaise("TypeError")
+                        kwargs.update(v)
+                    else:
+                        kwargs[k.arg] = self.ev(k.value)
+                self.trace.append((f, args, kwargs))
+                try:
+                    return self.default_call(f, args, kwargs)
+                except TypeError:
+                    return self.default_call(f, args)
             raise AnalysisError(f"tiny: call {t[:60]}")
         raise AnalysisError(f"tiny: expression {ast.unparse(e)[:60]}")
 
@@ -148,7 +202,13 @@ class Tiny:
 
 
     def run(self, stmts, stop=None):
-        """Execute statements; returns ('fall', None) / ('return', value) / ('stop', stmt)."""
+        """Execute statements; returns ('fall', None) / ('return', value) / ('raise', what) / ('stop', stmt)."""
+        try:
+            return self._run(stmts, stop)
+        except TinyRaise as ex:
+            return ("raise", str(ex))
+
+    def _run(self, stmts, stop=None):
         for st in stmts:
             if stop is not None and stop(st):
                 return ("stop", st)
@@ -162,22 +222,66 @@ class Tiny:
                     if isinstance(base, dict):
                         base[self.ev(t.slice)] = v
                         continue
+                if isinstance(t, ast.Attribute) and norm.text(t) not in self.env:
+                    try:
+                        base = self.ev(t.value)
+                    except AnalysisError:
+                        base = None
+                    if isinstance(base, Sym):
+                        base.attrs[t.attr] = v
+                        continue
                 self.env[norm.text(t)] = v
             elif isinstance(st, ast.AugAssign) and isinstance(st.op, (ast.Add, ast.Sub)):
                 t = norm.text(st.target)
                 v = self.ev(st.value)
                 self.env[t] = self.env[t] + v if isinstance(st.op, ast.Add) else self.env[t] - v
             elif isinstance(st, ast.If):
-                r = self.run(st.body if self.truth(self.ev(st.test)) else st.orelse, stop)
+                r = self._run(st.body if self.truth(self.ev(st.test)) else st.orelse, stop)
                 if r[0] != "fall":
                     return r
+            elif isinstance(st, ast.Delete):
+                for t in st.targets:
+                    if isinstance(t, ast.Subscript):
+                        base, k = self.ev(t.value), self.ev(t.slice)
+                        if isinstance(base, dict) and k not in base:
+                            raise TinyRaise("KeyError")
+                        del base[k]
+                    else:
+                        self.env.pop(norm.text(t), None)
+            elif isinstance(st, ast.For) and isinstance(st.target, ast.Name):
+                seq = self.ev(st.iter)
+                if isinstance(seq, dict):
+                    seq = list(seq)
+                if not isinstance(seq, list):
+                    raise AnalysisError(f"tiny: iteration over {seq!r}")
+                i = 0
+                broke = False
+                while i < len(seq):  # live iteration, like CPython's list iterator
+                    self.env[st.target.id] = seq[i]
+                    i += 1
+                    r = self._run(st.body, stop)
+                    if r[0] == "break":
+                        broke = True
+                        break
+                    if r[0] not in ("fall", "continue"):
+                        return r
+                    if i > 64:
+                        raise AnalysisError("tiny: loop too long")
+                if not broke and st.orelse:
+                    r = self._run(st.orelse, stop)
+                    if r[0] != "fall":
+                        return r
+            elif isinstance(st, ast.Break):
+                return ("break", None)
+            elif isinstance(st, ast.Continue):
+                return ("continue", None)
             elif isinstance(st, ast.While):
                 n = 0
                 while self.truth(self.ev(st.test)):
                     n += 1
                     if n > 64:
                         raise AnalysisError("tiny: loop does not terminate within 64 iterations on a small cell")
-                    r = self.run(st.body, stop)
+                    r = self._run(st.body, stop)
                     if r[0] != "fall":
                         return r
             elif isinstance(st, ast.Raise):
@@ -188,7 +292,9 @@ class Tiny:
                 if isinstance(st.value, ast.Constant):
                     continue
                 self.ev(st.value)
-            elif isinstance(st, ast.Pass):
+            elif isinstance(st, ast.FunctionDef):
+                self.env[st.name] = Sym(f"function {st.name}")
+            elif isinstance(st, (ast.Pass, ast.Assert, ast.Import, ast.ImportFrom)):
                 continue
             else:
                 raise AnalysisError(f"tiny: statement {type(st).__name__} at line {st.lineno}")
@@ -198,8 +304,8 @@ class Tiny:
 class Sym:
     """An opaque object with a chosen truth value (e.g. a user object defining __len__ / __bool__)."""
 
-    def __init__(self, name, truthy=True):
-        self.name, self.truthy = name, truthy
+    def __init__(self, name, truthy=True, **attrs):
+        self.name, self.truthy, self.attrs = name, truthy, dict(attrs)
 
     def __bool__(self):
         return self.truthy
